@@ -5,7 +5,8 @@ EXTENDS UringOps, Json, IOUtils
 Rec == ndJsonDeserialize(IOEnv.TRACE)
 Verdicts == [i \in 1..Len(Rec) |-> IF Rec[i].ev = "batch" THEN Judge(Rec[i])
                                    ELSE IF Rec[i].ev = "geometry" THEN JudgeGeometry(Rec[i])
-                                   ELSE IF Rec[i].ev = "lap" THEN JudgeLap(Rec[i]) ELSE ""]
+                                   ELSE IF Rec[i].ev = "lap" THEN JudgeLap(Rec[i])
+                                   ELSE IF Rec[i].ev = "constant" THEN JudgeConstant(Rec[i]) ELSE ""]
 Bad == {i \in 1..Len(Rec) : Verdicts[i] # ""}
 ASSUME PrintT(<<"OPSJUDGE", ToJson([n |-> Len(Rec), bad |-> [i \in Bad |-> Verdicts[i]]])>>)
 VARIABLE x
